@@ -521,20 +521,30 @@ func c17Do(s c17Sys, op c17Op) []c17Obs {
 
 const c17HotSpin = 20000
 
-// c17RunPhase runs the scripts, one goroutine each, released together by a spin barrier. With clk != nil every
-// operation is stamped call/return with the shared logical clock (an atomic counter: if A returned before B was
-// called in real time then A.Ret < B.Call).
+// c17RunPhase runs the scripts, one goroutine each, started together. With clk != nil every operation is stamped
+// call/return with the shared logical clock (an atomic counter: if A returned before B was called in real time then
+// A.Ret < B.Call).
+//
+// Start barrier in two stages. Stage 1: every goroutine parks on a channel until all exist (no busy waiting: on an
+// oversubscribed machine yield loops would take the CPU from the thread everybody is waiting for). Stage 2: a released
+// goroutine arms itself and spins hot - it is on a CPU while it spins - until all are armed or its spin budget is
+// used up, so that the goroutines which can run in parallel start within nanoseconds of each other.
 func c17RunPhase(s c17Sys, scripts [][]c17Op, clk *atomic.Int64) (reads [][]c17Read, evs [][]c17Ev, panicked string) {
 	n := len(scripts)
 	reads = make([][]c17Read, n)
 	evs = make([][]c17Ev, n)
 	panics := make([]string, n)
-	var ready, release, armed atomic.Int32
+	var armed atomic.Int32
 	budget := c17HotSpin
-	if n >= runtime.GOMAXPROCS(0) {
-		budget = c17HotSpin / 10 // they cannot all be on a CPU at once: do not wait long for that
+	switch {
+	case n >= runtime.GOMAXPROCS(0):
+		budget = c17HotSpin / 16 // they cannot all be on a CPU at once: do not wait long for that
+	case n > 4:
+		budget = c17HotSpin / 4
 	}
-	var wg sync.WaitGroup
+	start := make(chan struct{})
+	var arrived, wg sync.WaitGroup
+	arrived.Add(n)
 	for g := range scripts {
 		wg.Add(1)
 		go func(g int) {
@@ -545,14 +555,8 @@ func c17RunPhase(s c17Sys, scripts [][]c17Op, clk *atomic.Int64) (reads [][]c17R
 				}
 			}()
 			sc := scripts[g]
-			// two-stage barrier. Stage 1 (arrival) yields while waiting, so that more goroutines than free cores all
-			// arrive. Stage 2: every goroutine that saw the release arms itself and spins hot (it is on a CPU while it
-			// spins) until all are armed or its spin budget is used up, so that goroutines which can run in parallel
-			// start within nanoseconds of each other.
-			ready.Add(1)
-			for release.Load() == 0 {
-				runtime.Gosched()
-			}
+			arrived.Done()
+			<-start
 			armed.Add(1)
 			for spin := 0; int(armed.Load()) < n && spin < budget; spin++ {
 			}
@@ -571,10 +575,8 @@ func c17RunPhase(s c17Sys, scripts [][]c17Op, clk *atomic.Int64) (reads [][]c17R
 			}
 		}(g)
 	}
-	for int(ready.Load()) < n {
-		runtime.Gosched()
-	}
-	release.Store(1)
+	arrived.Wait()
+	close(start)
 	wg.Wait()
 	for _, p := range panics {
 		if p != "" {
@@ -995,7 +997,7 @@ func c17Journal(facet, caseJSON string) {
 		}
 		c17Jr.f, c17Jr.facet = f, facet
 	}
-	b := []byte(`{"property":"C17","facet":"` + facet + `","message":"the test process died (fatal error in the code under test, or test timeout) while this case was executing; see output_tail","seed":"` +
+	b := []byte(`{"property":"C17","facet":"` + facet + `","message":"the test process died (fatal error in the code under test, race report under -race with halt_on_error, or test timeout) while this case was executing; see output_tail","seed":"` +
 		os.Getenv("VERIF_SEED") + `","case":` + caseJSON + "}")
 	c17Jr.f.WriteAt(b, 0)
 	c17Jr.f.Truncate(int64(len(b)))
